@@ -23,6 +23,8 @@ func RunAny(in Sx) (Sx, []string) {
 		return RunListener(in)
 	case 3:
 		return RunBurst(in)
+	case 4:
+		return RunServer(in)
 	}
 	return Run(CfgOfSx(in))
 }
@@ -32,6 +34,9 @@ func RunAny(in Sx) (Sx, []string) {
 func ChildMain() {
 	if os.Getenv("CONNSIM_CHILD") == "" {
 		return
+	}
+	if os.Getenv("CONNSIM_FAST") != "" {
+		deadlineDiv = 4
 	}
 	sc := bufio.NewScanner(os.Stdin)
 	sc.Buffer(make([]byte, 1<<20), 1<<28)
@@ -50,6 +55,13 @@ func ChildMain() {
 			fmt.Fprintf(w, "NOTE %s\n", strings.ReplaceAll(n, "\n", " "))
 		}
 		fmt.Fprintf(w, "OBS %s\n", obs.String())
+		if len(notes) > 0 {
+			// stuck / inconclusive scenario: goroutines of its connection may linger; let the
+			// remaining scenarios of the batch start in a fresh process
+			fmt.Fprintf(w, "BYE\n")
+			w.Flush()
+			os.Exit(0)
+		}
 		w.Flush()
 	}
 	os.Exit(0)
@@ -62,6 +74,8 @@ func crashObservation(in Sx) Sx {
 		return Ints(0, 1, 0, 0, 0, 0, 0, 0, 0)
 	case 3:
 		return Ints(0, 1, 0, 0, 0, 0, 0, 0)
+	case 4:
+		return List(ListOf(nil), Ints(0, 0, 1, 0))
 	}
 	// connection scenario: nothing observed except that the process died (panics = 1)
 	return List(e, e, e, e, e, Ints(0, 0, 0, 0), Ints(0, 0, 0, 0), e, Ints(0, 0), Ints(0, 0), e, Ints(1, 0, 0), Ints(0, 0, 0), e)
@@ -74,9 +88,16 @@ func timeoutObservation(in Sx) Sx {
 		return Ints(0, 0, 0, 0, 0, 0, 0, 1, 0)
 	case 3:
 		return Ints(0, 0, 0, 0, 0, 0, 1, 0)
+	case 4:
+		return List(ListOf(nil), Ints(0, 0, 0, 1))
 	}
 	return List(e, e, e, e, e, Ints(0, 0, 0, 0), Ints(0, 0, 0, 0), e, Ints(0, 0), Ints(0, 0), e, Ints(0, 0, 0), Ints(1, 0, 0), e)
 }
+
+// deadlineDiv divides every observation deadline (1 normally, 4 in fast mode).
+var deadlineDiv = 1
+
+func dl(d time.Duration) time.Duration { return d / time.Duration(deadlineDiv) }
 
 // Result of one scenario.
 type Result struct {
@@ -111,16 +132,29 @@ func RunBatch(ins []Sx) []Result {
 	}
 	const batch = 12
 	next := 0
+	troubled := 0
 	for next < len(ins) {
+		// several scenarios already ran into deadlines (stuck / inconclusive): do not let the rest
+		// of the run spend the whole budget waiting — shorter deadlines (they only ever turn an
+		// observation into "inconclusive", never into a finding)
+		fast := troubled >= 4
 		end := next + batch
 		if end > len(ins) {
 			end = len(ins)
 		}
-		got, crashNote, timedOut := runChild(exe, ins[next:end])
+		got, crashNote, timedOut, bye := runChild(exe, ins[next:end], fast)
+		for _, r := range got {
+			if len(r.Notes) > 0 {
+				troubled++
+			}
+		}
 		for k, r := range got {
 			res[next+k] = r
 		}
 		next += len(got)
+		if next < end && bye && len(got) > 0 {
+			continue // the child left voluntarily after a stuck / inconclusive scenario
+		}
 		if next < end {
 			// the child stopped inside scenario `next`
 			if timedOut {
@@ -134,7 +168,7 @@ func RunBatch(ins []Sx) []Result {
 	return res
 }
 
-func runChild(exe string, ins []Sx) (got []Result, crashNote string, timedOut bool) {
+func runChild(exe string, ins []Sx, fast bool) (got []Result, crashNote string, timedOut bool, bye bool) {
 	var input strings.Builder
 	for _, in := range ins {
 		input.WriteString(in.String())
@@ -142,6 +176,9 @@ func runChild(exe string, ins []Sx) (got []Result, crashNote string, timedOut bo
 	}
 	cmd := exec.Command(exe)
 	cmd.Env = append(os.Environ(), "CONNSIM_CHILD=1")
+	if fast {
+		cmd.Env = append(cmd.Env, "CONNSIM_FAST=1")
+	}
 	cmd.Stdin = strings.NewReader(input.String())
 	var stdout, stderr bytes.Buffer
 	cmd.Stdout = &stdout
@@ -167,7 +204,9 @@ func runChild(exe string, ins []Sx) (got []Result, crashNote string, timedOut bo
 	sc.Buffer(make([]byte, 1<<20), 1<<28)
 	for sc.Scan() {
 		l := sc.Text()
-		if strings.HasPrefix(l, "NOTE ") {
+		if l == "BYE" {
+			bye = true
+		} else if strings.HasPrefix(l, "NOTE ") {
 			notes = append(notes, l[5:])
 		} else if strings.HasPrefix(l, "OBS ") {
 			if v, err := Parse(l[4:]); err == nil {
